@@ -31,6 +31,17 @@ pub fn try_adjust_price_with_max_deviation_factor(factor: &u128, price: &UPrice,
         r.is_some() && unit_price(r.unwrap().min) <= unit_price(r.unwrap().max)
             ==> in_band(unit_price(r.unwrap().min), reference_of(*price, ref_price), dev_of(*price, ref_price, *factor))
              && in_band(unit_price(r.unwrap().max), reference_of(*price, ref_price), dev_of(*price, ref_price, *factor)),
+        // side by side, also for a result that ends up inverted: the max side is never above the band, and it is inside the band unless
+        // it IS the upper bound rounded down to the price's own step (a band narrower than one step); the min side is never below the
+        // band, and inside it unless it IS the lower bound rounded up. In particular a side that lies on the wrong side of the
+        // reference is always reset.
+        r.is_some() ==> ({
+            let reference = reference_of(*price, ref_price); let dev = dev_of(*price, ref_price, *factor);
+            let (mx, mn) = (unit_price(r.unwrap().max), unit_price(r.unwrap().min));
+            let (kx, kn) = (p10(price.max.decimal_multiplier as nat), p10(price.min.decimal_multiplier as nat));
+            &&& mx <= reference + dev && (mx >= reference - dev || mx == ((reference + dev) / kx) * kx)
+            &&& mn >= reference - dev && (mn <= reference + dev || mn == ((reference - dev + kn - 1) / kn) * kn)
+        }),
 //@body
 
 } // verus!
